@@ -60,7 +60,7 @@ def runBatchLine {α} (R : Run α) (n : Nat) (s : St α) (args : List Int) : Opt
     pure (s', out)
   | _ => none
 
-def runHistory {α} (R : Run α) (n : Nat) : St α → List String → List String
+def runLines {α} (R : Run α) (n : Nat) : St α → List String → List String
   | _, [] => []
   | s, line :: rest =>
     match toks line with
@@ -68,14 +68,14 @@ def runHistory {α} (R : Run α) (n : Nat) : St α → List String → List Stri
       match ints? ts with
       | some args =>
         match runBatchLine R n s args with
-        | some (s', out) => out ++ runHistory R n s' rest
+        | some (s', out) => out ++ runLines R n s' rest
         | none => ["bad-op"]
       | none => ["bad-op"]
     | _ => ["bad-op"]
 
 def startWith {α} (R : Run α) (n : Nat) (olds : List Int) (rest : List String) : List String :=
   match olds.mapM R.ofInt with
-  | some vs => runHistory R n { files := listFn R.dflt vs, cache := fun _ => none, skip := [] } rest
+  | some vs => runLines R n { files := listFn R.dflt vs, cache := fun _ => none, skip := [] } rest
   | none => ["bad-op"]
 
 def runCase (lines : List String) : List String :=
